@@ -107,6 +107,65 @@ Proof.
     unfold zs. cbn [map app]. now rewrite !Nat2Z.id.
 Qed.
 
+(* ---- reshape((I, 1, 1)) of a 1-way tensor, all modes reshaped (the `old.size == 0` branch of /repo c11bcb2; finding C14-F3 repaired) *)
+Lemma sp_reshape_oneway (S : sparse V) (I : nat) :
+  sshape S = [I] -> length (ssubs S) = length (svals S) -> Forall (fun i => inb [I] i = true) (ssubs S) ->
+  sp_reshape_gen S [I; 1; 1] [0] = Some (mkSp [I; 1; 1] (map (fun j => [nth 0 j 0; 0; 0]) (ssubs S)) (svals S)).
+Proof.
+  intros Hs HL Hin. unfold sp_reshape_gen. rewrite Hs. cbn [length].
+  change (setdiff_modes 1 [0]) with (@nil nat). cbn [pick map nth app].
+  replace (size [I; 1; 1] =? size [I]) with true by (symmetry; apply Nat.eqb_eq; cbn [size fold_right]; lia).
+  cbn [negb]. rewrite Forall_forall in Hin.
+  assert (Hone : forall j, In j (ssubs S) -> j = [nth 0 j 0] /\ nth 0 j 0 < I).
+  { intros j Hj. specialize (Hin j Hj). destruct j as [|a [|b j]]; cbn [inb] in Hin; try discriminate.
+    - apply andb_true_iff in Hin as [Ha _]. apply Nat.ltb_lt in Ha. now split.
+    - rewrite andb_false_r in Hin. discriminate. }
+  destruct (ssubs S) as [|j0 l] eqn:E.
+  - destruct (svals S); [reflexivity|discriminate HL].
+  - rewrite <- E in *.
+    rewrite (map_ext_in (pick 0 [0]) (fun j => j)).
+    2:{ intros j Hj. destruct (Hone j Hj) as [Ej _]. rewrite Ej at 2. reflexivity. }
+    rewrite map_id.
+    rewrite (tt_sub2ind_spec [I] (ssubs S)); [|discriminate|exact Hin].
+    rewrite <- (map_map (sub2ind [I]) Z.of_nat). fold (zs (map (sub2ind [I]) (ssubs S))).
+    assert (Hk : forall j, In j (ssubs S) -> sub2ind [I] j = nth 0 j 0).
+    { intros j Hj. destruct (Hone j Hj) as [Ej _]. rewrite Ej at 1. cbn [sub2ind]. lia. }
+    rewrite (tt_ind2sub_spec [I; 1; 1]).
+    2:{ intros k Hk'. apply in_map_iff in Hk' as (j & <- & Hj). rewrite (Hk j Hj). destruct (Hone j Hj) as [_ Hlt].
+        cbn [size fold_right]. lia. }
+    rewrite map_map, combine_map_r, map_map. cbn [fst snd].
+    f_equal. f_equal. apply map_ext_in. intros j Hj. rewrite (Hk j Hj). destruct (Hone j Hj) as [_ Hlt].
+    cbn [ind2sub]. rewrite Nat.mod_small by exact Hlt. rewrite !Nat.mod_1_r.
+    unfold zs. cbn [map app]. now rewrite !Nat2Z.id.
+Qed.
+
+Lemma rest_modes_length N n : n < N -> length (rest_modes N n) = N - 1.
+Proof. intros H. unfold rest_modes. rewrite app_length, !seq_length. lia. Qed.
+
+(* ---- the first reshape of sptensor.nvecs, both branches of `if old.size == 0`: an (I_n, K, 1) tensor with K = 1 for a 1-way tensor *)
+Lemma sp_reshape_first (S : sparse V) (n : nat) :
+  let s := sshape S in
+  let rs := remove_nth n s in
+  n < length s -> length (ssubs S) = length (svals S) -> Forall (fun i => inb s i = true) (ssubs S) ->
+  match setdiff_modes (length s) [n] with
+  | [] => sp_reshape_gen S [nth n s 0; 1; 1] (seq 0 (length s))
+  | _ :: _ => sp_reshape_gen S [size (pick 0 (setdiff_modes (length s) [n]) s); 1] (setdiff_modes (length s) [n])
+  end = Some (mkSp [nth n s 0; size rs; 1] (map (fun j => [nth n j 0; sub2ind rs (remove_nth n j); 0]) (ssubs S)) (svals S)).
+Proof.
+  intros s rs Hn HL Hin. rewrite (setdiff_single _ n Hn).
+  destruct (Nat.eq_dec (length s) 1) as [E1|E1].
+  - (* 1-way *)
+    assert (n = 0) by lia. subst n. destruct s as [|I [|? ?]] eqn:Es; try discriminate E1. clear E1.
+    change (rest_modes (length [I]) 0) with (@nil nat). cbn [length seq nth].
+    assert (Hs : sshape S = [I]) by exact Es.
+    rewrite (sp_reshape_oneway S I Hs HL Hin). unfold rs. cbn [remove_nth firstn skipn app size fold_right].
+    reflexivity.
+  - pose proof (rest_modes_length (length s) n Hn) as HLr.
+    destruct (rest_modes (length s) n) as [|m0 ms] eqn:Er; [cbn [length] in HLr; lia|]. rewrite <- Er.
+    rewrite (pick_rest 0 s (length s) n eq_refl Hn). fold rs.
+    apply (sp_reshape_nvecs S n Hn HL Hin). unfold s in *. lia.
+Qed.
+
 (* ---- squeeze of an (I, K, 1) tensor with I, K > 1 *)
 Lemma sp_squeeze_nvecs (I K : nat) (subs : list idx) (vals : list V) : 1 < I -> 1 < K -> length subs = length vals ->
   sp_squeeze v0 (mkSp [I; K; 1] subs vals) = SqTensor (mkSp [I; K] (map (fun j => [nth 0 j 0; nth 1 j 0]) subs) vals).
@@ -159,14 +218,14 @@ Qed.
 Theorem sp_nvecs_tnt_eq (S : sparse V) (n : nat) :
   let s := sshape S in
   let rs := remove_nth n s in
-  n < length s -> 2 <= length s -> length (ssubs S) = length (svals S) -> Forall (fun i => inb s i = true) (ssubs S) ->
+  n < length s -> length (ssubs S) = length (svals S) -> Forall (fun i => inb s i = true) (ssubs S) ->
   ~ (nth n s 0 = 1 /\ size rs = 1) ->
   sp_nvecs_tnt S n =
   Some (mkCoo [size rs; nth n s 0] (map (fun j => [sub2ind rs (remove_nth n j); nth n j 0]) (ssubs S)) (svals S)).
 Proof.
-  intros s rs Hn H2 HL Hin Hns. subst rs s. unfold sp_nvecs_tnt.
-  rewrite (setdiff_single _ n Hn). rewrite (pick_rest 0 (sshape S) _ n eq_refl Hn).
-  rewrite (sp_reshape_nvecs S n Hn HL Hin H2). cbn [sshape forallb length seq firstn].
+  intros s rs Hn HL Hin Hns. subst rs s. unfold sp_nvecs_tnt.
+  rewrite (proj2 (Nat.ltb_lt _ _) Hn). cbn [negb].
+  rewrite (sp_reshape_first S n Hn HL Hin). cbn [sshape forallb length seq firstn].
   replace (_ && _) with false.
   2:{ symmetry. destruct (Nat.eqb_spec 1 (nth n (sshape S) 0)) as [E1|_]; [|reflexivity].
       destruct (Nat.eqb_spec 1 (size (remove_nth n (sshape S)))) as [E2|_]; [|reflexivity]. exfalso. apply Hns. now split. }
@@ -182,13 +241,13 @@ Qed.
 
 Theorem sp_triples_bridge (S : sparse V) (n : nat) :
   let s := sshape S in
-  n < length s -> 2 <= length s -> length (ssubs S) = length (svals S) -> Forall (fun i => inb s i = true) (ssubs S) ->
+  n < length s -> length (ssubs S) = length (svals S) -> Forall (fun i => inb s i = true) (ssubs S) ->
   ~ (nth n s 0 = 1 /\ size (remove_nth n s) = 1) ->
   exists C, sp_nvecs_tnt S n = Some C /\ coo_shape C = [size (remove_nth n s); nth n s 0] /\
             Forall (fun rc => inb (coo_shape C) rc = true) (coo_subs C) /\
             coo_triples C = sp_triples S n.
 Proof.
-  intros s Hn H2 HL Hin Hns. eexists. split; [apply (sp_nvecs_tnt_eq S n Hn H2 HL Hin Hns)|]. fold s.
+  intros s Hn HL Hin Hns. eexists. split; [apply (sp_nvecs_tnt_eq S n Hn HL Hin Hns)|]. fold s.
   cbn [coo_shape coo_subs]. split; [reflexivity|]. split.
   - apply Forall_forall. intros rc Hrc. apply in_map_iff in Hrc as (j & <- & Hj).
     rewrite Forall_forall in Hin. specialize (Hin j Hj). cbn [inb].
@@ -202,26 +261,26 @@ Qed.
 (* y = tnt^T tnt as the code path forms it IS gram_sp_impl *)
 Theorem gram_sp_code_path_eq (S : sparse V) (n : nat) :
   let s := sshape S in
-  n < length s -> 2 <= length s -> length (ssubs S) = length (svals S) -> Forall (fun i => inb s i = true) (ssubs S) ->
+  n < length s -> length (ssubs S) = length (svals S) -> Forall (fun i => inb s i = true) (ssubs S) ->
   ~ (nth n s 0 = 1 /\ size (remove_nth n s) = 1) ->
   gram_sp_code_path v0 vadd vmul S n = Some (gram_sp_impl v0 vadd vmul S n).
 Proof.
-  intros s Hn H2 HL Hin Hns. unfold gram_sp_code_path.
-  destruct (sp_triples_bridge S n Hn H2 HL Hin Hns) as (C & -> & Hs & _ & Ht).
+  intros s Hn HL Hin Hns. unfold gram_sp_code_path.
+  destruct (sp_triples_bridge S n Hn HL Hin Hns) as (C & -> & Hs & _ & Ht).
   rewrite Hs, Ht. reflexivity.
 Qed.
 
 (* … and, read through the arrays the COO matrices denote (C14_coo_product), the matrix product is gram_spec of den_sp *)
 Theorem gram_sp_code_path_spec (S : sparse V) (n a b : nat) :
   let s := sshape S in
-  wf_sp isz S -> n < length s -> 2 <= length s -> ~ (nth n s 0 = 1 /\ size (remove_nth n s) = 1) -> a < nth n s 0 -> b < nth n s 0 ->
+  wf_sp isz S -> n < length s -> ~ (nth n s 0 = 1 /\ size (remove_nth n s) = 1) -> a < nth n s 0 -> b < nth n s 0 ->
   exists C Y, sp_nvecs_tnt S n = Some C /\ coo_shape C = [size (remove_nth n s); nth n s 0] /\
     gram_sp_code_path v0 vadd vmul S n = Some Y /\
     mget v0 Y a b = sum_n v0 vadd (size (remove_nth n s)) (fun k => vmul (den_coo v0 vadd C [k; a]) (den_coo v0 vadd C [k; b])) /\
     mget v0 Y a b = gram_spec v0 vadd vmul s (den_sp v0 S) n a b.
 Proof.
-  intros s W Hn H2 Hns Ha Hb. pose proof W as (HL & _ & Hin & _).
-  destruct (sp_triples_bridge S n Hn H2 HL Hin Hns) as (C & HC & Hs & Hb' & Ht).
+  intros s W Hn Hns Ha Hb. pose proof W as (HL & _ & Hin & _).
+  destruct (sp_triples_bridge S n Hn HL Hin Hns) as (C & HC & Hs & Hb' & Ht).
   exists C, (gram_sp_impl v0 vadd vmul S n). split; [exact HC|]. split; [exact Hs|]. split.
   - now apply gram_sp_code_path_eq.
   - split.
@@ -272,26 +331,67 @@ Theorem sp_nvecs_tnt_all_singleton (S : sparse V) (n : nat) :
   let s := sshape S in
   n < length s -> nth n s 0 = 1 -> size (remove_nth n s) = 1 -> sp_nvecs_tnt S n = None.
 Proof.
-  intros s Hn H1 HK. unfold sp_nvecs_tnt. fold s.
-  rewrite (setdiff_single (length s) n Hn). rewrite (pick_rest 0 s (length s) n eq_refl Hn).
-  destruct (sp_reshape_gen S _ _) as [R|] eqn:ER; [|reflexivity].
-  apply sp_reshape_shape in ER. fold s in ER. rewrite (setdiff_rest (length s) n Hn) in ER. cbn [pick map app] in ER.
-  rewrite ER, H1, HK. reflexivity.
+  intros s Hn H1 HK. unfold sp_nvecs_tnt. fold s. rewrite (proj2 (Nat.ltb_lt _ _) Hn). cbn [negb].
+  rewrite (setdiff_single (length s) n Hn).
+  destruct (rest_modes (length s) n) as [|m0 ms] eqn:Er.
+  - (* 1-way: reshape((1, 1, 1)) *)
+    pose proof (rest_modes_length (length s) n Hn) as HLr. rewrite Er in HLr. cbn [length] in HLr.
+    destruct (sp_reshape_gen S _ _) as [R|] eqn:ER; [|reflexivity].
+    apply sp_reshape_shape in ER. fold s in ER.
+    replace (length s) with 1 in ER by lia. change (setdiff_modes 1 (seq 0 1)) with (@nil nat) in ER. cbn [pick map app] in ER.
+    rewrite ER, H1. reflexivity.
+  - rewrite <- Er. rewrite (pick_rest 0 s (length s) n eq_refl Hn).
+    destruct (sp_reshape_gen S _ _) as [R|] eqn:ER; [|reflexivity].
+    apply sp_reshape_shape in ER. fold s in ER. rewrite (setdiff_rest (length s) n Hn) in ER. cbn [pick map app] in ER.
+    rewrite ER, H1, HK. reflexivity.
+Qed.
+
+(* the mode range test of /repo 453f75b (finding C19-N23 repaired): a mode that does not exist is refused before anything is built
+   (before the repair np.setdiff1d ignored it and the 1 x 1 Gram matrix of the fully vectorised tensor was answered) *)
+Theorem sp_nvecs_tnt_mode_refused (S : sparse V) (n : nat) : length (sshape S) <= n -> sp_nvecs_tnt S n = None.
+Proof. intros H. unfold sp_nvecs_tnt. rewrite (proj2 (Nat.ltb_ge _ _) H). reflexivity. Qed.
+
+Theorem sp_nvecs_tnt_z_refused (S : sparse V) (n : Z) :
+  (n < 0 \/ Z.of_nat (length (sshape S)) <= n)%Z -> sp_nvecs_tnt_z S n = None.
+Proof.
+  intros H. unfold sp_nvecs_tnt_z. destruct (Z.leb_spec 0 n) as [H0|H0]; [|reflexivity].
+  apply sp_nvecs_tnt_mode_refused. lia.
+Qed.
+
+Theorem sp_nvecs_tnt_z_nat (S : sparse V) (n : nat) : sp_nvecs_tnt_z S (Z.of_nat n) = sp_nvecs_tnt S n.
+Proof. unfold sp_nvecs_tnt_z. rewrite (proj2 (Z.leb_le _ _) (Nat2Z.is_nonneg n)), Nat2Z.id. reflexivity. Qed.
+
+(* finding C14-F3 (repaired in /repo c11bcb2) as the positive statement: a 1-way tensor with at least two entries is ANSWERED; tnt is
+   the 1 x I row of the stored values and the matrix handed to the solver is the outer product x x^T = gram_spec of the denotation *)
+Theorem sp_oneway_answered (S : sparse V) (I : nat) :
+  wf_sp isz S -> sshape S = [I] -> 1 < I ->
+  exists Y, sp_nvecs_tnt S 0 = Some (mkCoo [1; I] (map (fun j => [0; nth 0 j 0]) (ssubs S)) (svals S)) /\
+    gram_sp_code_path v0 vadd vmul S 0 = Some Y /\ Y = gram_sp_impl v0 vadd vmul S 0 /\
+    forall a b, a < I -> b < I -> mget v0 Y a b = gram_spec v0 vadd vmul [I] (den_sp v0 S) 0 a b.
+Proof.
+  intros W Hs HI. pose proof W as (HL & _ & Hin & _).
+  assert (Hn : 0 < length (sshape S)) by (rewrite Hs; cbn; lia).
+  assert (Hns : ~ (nth 0 (sshape S) 0 = 1 /\ size (remove_nth 0 (sshape S)) = 1)) by (rewrite Hs; cbn [nth]; intros [E _]; lia).
+  exists (gram_sp_impl v0 vadd vmul S 0). split.
+  - rewrite (sp_nvecs_tnt_eq S 0 Hn HL Hin Hns). rewrite Hs. reflexivity.
+  - split; [now apply gram_sp_code_path_eq|]. split; [reflexivity|]. intros a b Ha Hb.
+    pose proof (gram_sparse V v0 v1 vadd vmul vsub vopp Vring isz S 0 a b W Hn) as G. rewrite Hs in G. cbn [nth] in G.
+    exact (G Ha Hb).
 Qed.
 
 (* the positive statement that replaces the refusal theorem of finding C14-F2: a singleton mode n (other modes not all singleton), or
    all other modes singleton (mode n not), is ANSWERED, and the matrix handed to the solver is gram_spec of the denotation *)
 Theorem sp_singleton_answered (S : sparse V) (n : nat) :
   let s := sshape S in
-  wf_sp isz S -> n < length s -> 2 <= length s ->
+  wf_sp isz S -> n < length s ->
   (nth n s 0 = 1 /\ 1 < size (remove_nth n s)) \/ (1 < nth n s 0 /\ size (remove_nth n s) = 1) ->
   exists C Y, sp_nvecs_tnt S n = Some C /\ coo_shape C = [size (remove_nth n s); nth n s 0] /\
     gram_sp_code_path v0 vadd vmul S n = Some Y /\ Y = gram_sp_impl v0 vadd vmul S n /\
     forall a b, a < nth n s 0 -> b < nth n s 0 -> mget v0 Y a b = gram_spec v0 vadd vmul s (den_sp v0 S) n a b.
 Proof.
-  intros s W Hn H2 Hcase. pose proof W as (HL & _ & Hin & _).
+  intros s W Hn Hcase. pose proof W as (HL & _ & Hin & _).
   assert (Hns : ~ (nth n s 0 = 1 /\ size (remove_nth n s) = 1)) by (intros [E1 E2]; destruct Hcase as [[_ H]|[H _]]; lia).
-  destruct (sp_triples_bridge S n Hn H2 HL Hin Hns) as (C & HC & Hs & _ & _).
+  destruct (sp_triples_bridge S n Hn HL Hin Hns) as (C & HC & Hs & _ & _).
   exists C, (gram_sp_impl v0 vadd vmul S n). split; [exact HC|]. split; [exact Hs|]. split; [now apply gram_sp_code_path_eq|].
   split; [reflexivity|]. intros a b Ha Hb. now apply (gram_sparse V v0 v1 vadd vmul vsub vopp Vring isz).
 Qed.
@@ -309,6 +409,11 @@ Example sp_path_example :
   sp_nvecs_tnt (mkSp [3; 1] [[0; 0]; [2; 0]] [2; 3]) 0 = Some (mkCoo [1; 3] [[0; 0]; [0; 2]] [2; 3]) /\
   gram_sp_code_path 0 Nat.add Nat.mul (mkSp [3; 1] [[0; 0]; [2; 0]] [2; 3]) 0 = Some [[4; 0; 6]; [0; 0; 0]; [6; 0; 9]] /\
   sp_nvecs_tnt (mkSp [1; 1; 1] [[0; 0; 0]] [7]) 2 = None /\
+  sp_nvecs_tnt (mkSp [5] [[0]; [2]; [3]] [2; 1; 3]) 0 = Some (mkCoo [1; 5] [[0; 0]; [0; 2]; [0; 3]] [2; 1; 3]) /\
+  gram_sp_code_path 0 Nat.add Nat.mul (mkSp [3] [[2]; [0]] [2; 3]) 0 = Some [[9; 0; 6]; [0; 0; 0]; [6; 0; 4]] /\
+  sp_nvecs_tnt (mkSp [1] [[0]] [7]) 0 = None /\
+  sp_nvecs_tnt (mkSp [2; 3] [[1; 2]] [7]) 2 = None /\ sp_nvecs_tnt_z (mkSp [2; 3] [[1; 2]] [7]) (-1) = None /\
+  sp_nvecs_tnt_z (mkSp [2; 3] [[1; 2]] [7]) 1 = Some (mkCoo [2; 3] [[1; 2]] [7]) /\
   sp_nvecs_tnt_old 0 (mkSp [1; 4; 3] [[0; 1; 2]; [0; 3; 0]] [2; 1]) 0 = None /\
   sp_nvecs_tnt_old 0 (mkSp [3; 1] [[0; 0]; [2; 0]] [2; 3]) 0 = None.
 Proof. vm_compute. repeat split. Qed.
